@@ -339,6 +339,10 @@ pub struct Sem<'p> {
     scope_seq: u64,
     depth: usize,
     pub named_owner: BTreeMap<String, Bid>,
+    /// Contradictory sources (duplicate names, methods, statuses) do not stop the evaluation:
+    /// used to find out whether a program is order dependent (X4) whatever else is wrong with it.
+    lenient: bool,
+    x4: bool,
 }
 
 type Env = BTreeMap<Bid, Val>;
@@ -362,6 +366,8 @@ impl<'p> Sem<'p> {
             scope_seq: 0,
             depth: 0,
             named_owner: BTreeMap::new(),
+            lenient: false,
+            x4: false,
         }
     }
 
@@ -450,7 +456,7 @@ impl<'p> Sem<'p> {
         for it in items {
             let v = self.eval(it, env, Ann::new())?;
             let p = self.cast_property(v)?;
-            if out.iter().any(|q| q.name == p.name) {
+            if !self.lenient && out.iter().any(|q| q.name == p.name) {
                 return excluded(&format!("X5: duplicate name in {what}"));
             }
             out.push(p);
@@ -631,7 +637,7 @@ impl<'p> Sem<'p> {
                 if let Some(h) = &headers {
                     let mut seen = BTreeSet::new();
                     for p in h {
-                        if !seen.insert(p.name.clone()) {
+                        if !seen.insert(p.name.clone()) && !self.lenient {
                             return excluded("X5: duplicate header name");
                         }
                     }
@@ -643,7 +649,7 @@ impl<'p> Sem<'p> {
                 for o in ops {
                     let v = self.eval(o, env, none())?;
                     for c in self.cast_ranges(v)? {
-                        if ranges.iter().any(|x| x.status == c.status && x.media == c.media) {
+                        if !self.lenient && ranges.iter().any(|x| x.status == c.status && x.media == c.media) {
                             return excluded("X2: two contents with the same status and media type");
                         }
                         ranges.push(c);
@@ -693,7 +699,7 @@ impl<'p> Sem<'p> {
                     let v = self.eval(x, env, none())?;
                     let xf = self.cast_transfer(v)?;
                     for m in &xf.methods {
-                        if out.iter().any(|(mm, _)| mm == m) {
+                        if !self.lenient && out.iter().any(|(mm, _)| mm == m) {
                             return excluded("X5: the same method in two transfers of a relation");
                         }
                         out.push((*m, xf.clone()));
@@ -714,7 +720,11 @@ impl<'p> Sem<'p> {
                 let rhs = rhs?;
                 if let Some(prev) = self.rec_values.get(&id) {
                     if *prev != rhs {
-                        return excluded("X4: a rec expression evaluated twice in one scope with different annotations");
+                        if self.lenient {
+                            self.x4 = true;
+                        } else {
+                            return excluded("X4: a rec expression evaluated twice in one scope with different annotations");
+                        }
                     }
                 } else {
                     self.rec_values.insert(id.clone(), rhs.clone());
@@ -1099,6 +1109,28 @@ pub struct SemFacts {
     /// Of those, the ones instantiated at top level (recursive declarations, `rec` under no application).
     pub implicit_emitted_top: usize,
     pub recursive_names: Vec<String>,
+}
+
+/// Whether the document of the program depends on the order in which the uses of a shared
+/// component are evaluated (X4, the known finding F9), independently of anything else that puts
+/// the program outside the strict fragment. `None`: the reference cannot evaluate the program.
+pub fn order_dependent(prog: &Program) -> Option<bool> {
+    let cycles = analyse_cycles(prog);
+    if cycles.invalid {
+        return None;
+    }
+    let mut sem = Sem::new(prog, cycles.recursive);
+    sem.lenient = true;
+    let empty = Env::new();
+    for s in &prog.modules[0].stmts {
+        if let Stmt::Res(e) = s {
+            if sem.eval(e, &empty, Ann::new()).is_err() {
+                return None;
+            }
+        }
+    }
+    let inherited_differ = sem.inherited.values().any(|anns| anns.windows(2).any(|w| w[0] != w[1]));
+    Some(sem.x4 || inherited_differ)
 }
 
 pub fn expected(prog: &Program) -> (Expected, SemFacts) {
